@@ -171,6 +171,26 @@ impl<'a, 'b> Renderer<'a, 'b> {
             }
         }
     }
+    /// several top-level forms one after the other (leaves too), separated by generated gaps
+    pub fn place_top(&mut self, forms: &[TT]) -> Vec<Placed> {
+        let mut out = vec![];
+        self.gap(false);
+        for (i, f) in forms.iter().enumerate() {
+            if i > 0 {
+                self.gap(true);
+            }
+            out.push(self.place(f));
+        }
+        // a trailing gap sometimes: the last token may also end at end of input -- except a bare
+        // word after other forms: the reader then returns that word alone and drops every earlier
+        // top-level form (finalize() in the Bareword state ignores what was collected; observed,
+        // outside what C15 states, noted in DESIGN.md).  Kept out by construction.
+        let last_is_word = matches!(forms.last(), Some(TT::Leaf(Tok::Bare(_) | Tok::Dec(_) | Tok::Hex(_) | Tok::Hash(_))));
+        if (last_is_word && forms.len() > 1) || self.c.chance(128) {
+            self.gap(true);
+        }
+        out
+    }
     pub fn place(&mut self, t: &TT) -> Placed {
         match t {
             TT::Leaf(tok) => {
@@ -399,16 +419,29 @@ pub fn mutate(c: &mut Choices, text: &str, other: &str) -> (String, &'static str
             }
             (String::from_utf8_lossy(&b).to_string(), "mut:change-char")
         }
-        _ => (text.to_string(), "mut:none"),
+        _ => {
+            // a token that sits on the border between the reader's token classes
+            let i = c.pick(n);
+            toks[i] = c.choose(ODD_TOKENS).to_string();
+            (join(&toks), "mut:replace-by-odd-token")
+        }
     }
 }
+
+/// tokens on the borders between the reader's token classes (number / hex / bareword / string /
+/// hash-prefixed / dotted)
+pub const ODD_TOKENS: &[&str] = &[
+    "--1", "--", "-", "+1", "++", "-0", "00", "0x", "0xg", "0x-1", "0X10", "0x0", "1-", "1e5", "1.5", ".5", "-.", "..", "#", "##", "#(", "#)", "#a", "#0x10", "\"", "'", "\"\\\"", "'\\'", "a\"b", "a'b", "-0x10", "0x1", "0xfffffffffffffffffffffffffffffffffffffffffffffffffffffffffffffffffff",
+    "-99999999999999999999999999999999999999999999999999999999999999999999999999999", "1_000", "١", "é", "&rest&rest", "@@", "(@)", "&", "(&)", "*standard-cl-99*", "*strict-cl-23*", "q.", ".q", "(.)", "(. a)", "(a .)", "(a . b c)",
+];
 
 pub fn token_soup(c: &mut Choices) -> String {
     let n = c.range(0, 40);
     let mut toks: Vec<String> = vec![];
     let mut depth = 0usize;
     for _ in 0..n {
-        match c.weighted(&[6, 5, 10, 2]) {
+        match c.weighted(&[6, 5, 10, 2, 2]) {
+            4 => toks.push(c.choose(ODD_TOKENS).to_string()),
             0 => {
                 depth += 1;
                 toks.push("(".into())
